@@ -222,4 +222,55 @@ theorem llcBytes_length (h : Llc) (hf : h.Fits) : (llcBytes h).length = h.length
   · omega
   · have := hf.oui _ ho; omega
 
+theorem llc_parse (next : XNext) (h : Llc) (payload : Bytes) (hf : h.Fits) :
+    llcParse next (llcBytes h ++ payload) = .llc h (llcNext next h payload) := by
+  have hd := hf.dsap; have hs := hf.ssap; have hc := hf.control; have hl := hf.length; have he := hf.ethType
+  have hsn := hf.snap
+  have hlen := llcBytes_length h hf
+  obtain ⟨length, dsap, ssap, control, oui, ethType⟩ := h
+  simp only at hd hs hc hl he hsn hlen
+  have td : (UInt8.ofNat dsap).toNat = dsap := u8_toNat _ hd
+  have ts : (UInt8.ofNat ssap).toNat = ssap := u8_toNat _ hs
+  -- the control field as the parser reads it
+  have hctl : ∀ (two : Bool), Llc.two ⟨length, dsap, ssap, control, oui, ethType⟩ = two →
+      (((llcCtl ⟨length, dsap, ssap, control, oui, ethType⟩).headD 0).toNat % 2 == 0
+        || ((llcCtl ⟨length, dsap, ssap, control, oui, ethType⟩).headD 0).toNat % 4 == 2) = two := by
+    intro two ht
+    unfold llcCtl
+    rw [ht]
+    cases two
+    · simp only [Bool.false_eq_true, if_false, List.headD_cons]
+      simp only [ht, Bool.false_eq_true, if_false] at hc
+      rw [u8_toNat _ hc]; exact ht
+    · simp only [if_true, List.headD_cons]
+      rw [u8_toNat _ (Nat.mod_lt _ (by decide))]
+      have : control % 256 % 2 = control % 2 := by omega
+      have h4 : control % 256 % 4 = control % 4 := by omega
+      rw [this, h4]; exact ht
+  cases ht : Llc.two ⟨length, dsap, ssap, control, oui, ethType⟩ <;> cases oui with
+  | none =>
+    all_goals
+      have hns : ¬ ((ssap / 2) * 2 = 0xaa ∧ (dsap / 2) * 2 = 0xaa) := by
+        intro hh; have := hsn.mpr hh; simp at this
+      simp only [ht, Option.isSome, Bool.false_eq_true, if_false, if_true] at hc hl he
+      have hct := hctl _ ht
+      simp only [llcCtl, ht, Bool.false_eq_true, if_false, if_true, List.headD_cons] at hct
+      subst he
+      simp only [llcBytes, llcCtl, llcSnap, llcNext, ht, Bool.false_eq_true, if_false, if_true, List.append_nil,
+        List.cons_append, List.nil_append]
+      unfold llcParse
+      simp [getU8, td, ts, hct, hns, hl]
+      try (rw [u8_toNat _ hc])
+      try (have c1 : control % 256 < 256 := Nat.mod_lt _ (by decide)
+           have c3 : control / 256 < 256 := by omega
+           rw [u8_toNat _ c1, u8_toNat _ c3]; omega)
+  | some o =>
+    all_goals
+      have hss : (ssap / 2) * 2 = 0xaa ∧ (dsap / 2) * 2 = 0xaa := hsn.mp rfl
+      have ho3 := hf.oui o rfl
+      simp only [ht, Option.isSome, Bool.false_eq_true, if_false, if_true] at hc hl he
+      have hct := hctl _ ht
+      simp only [llcCtl, ht, Bool.false_eq_true, if_false, if_true, List.headD_cons] at hct
+      sorry
+
 end Pox.Packet
